@@ -611,6 +611,8 @@ class Program:
             mods = []
         else:
             segs = split_path(c)
+            while len(segs) > 1 and segs[-1].startswith('<') and not segs[-1].startswith('<impl'):
+                segs.pop()           # trailing turbofish  f::<T>
             method = strip_generics(segs[-1])
             mods = []
             for sg in segs[:-1]:
